@@ -10,7 +10,7 @@ import (
 // TestC15_Bursts: many bindings per challenge. The bounded-exhaustive enumeration reaches at most 6-7
 // bindings in total; storage schemes for the bindings (pre-sized or shared backing arrays, growth at 4, 8,
 // 16, 32 elements) only misbehave beyond that. For three challenges, every triple of binding counts from
-// {0,1,3,4,5,8,9,16,17,33} and every interleaving pattern below, each value distinct, bound buffers
+// {0,1,3,4,5,8,9,16,17,33} (SHA-256; smaller sets for the other hashes of the family) and every interleaving pattern below, each value distinct, bound buffers
 // overwritten before the challenges are computed; the usual lock-step comparison and closing rounds.
 func TestC15_Bursts(t *testing.T) {
 	orders := []string{"a*b*c*", "c*b*a*", "round_robin", "b*a*c*_compute_a_first"}
